@@ -94,6 +94,7 @@ func (delegate *Delegate) NotifyMsg(msgBytes []byte) {
 			context.WithValue(context.Background(), internal.ContextServerID("ServerID"), string(msg.ServerID)),
 			internal.ContextConnID("ConnectionID"), msg.ConnId)
 		ctx = context.WithValue(context.WithValue(ctx, "Database", msg.Database), "Protocol", msg.Protocol)
+		ctx = context.WithValue(ctx, "ExpiredAt", msg.ExpiredAt)
 
 		key := string(msg.Content)
 
